@@ -16,6 +16,7 @@ open HC.GenW HC.GenR
 /-! ### basics -/
 theorem gr_ok_bind {α β : Type} (v : α) (f : α → R β) : (Except.ok v >>= f) = f v := rfl
 theorem gr_err_bind {α β : Type} (e : Err) (f : α → R β) : ((Except.error e : R α) >>= f) = .error e := rfl
+theorem gr_pure {α : Type} (a : α) : (pure a : R α) = .ok a := rfl
 
 theorem gr_mapM_nil {α β : Type} (f : α → R β) : ([] : List α).mapM f = .ok [] := rfl
 theorem gr_mapM_cons {α β : Type} (f : α → R β) (a : α) (l : List α) :
@@ -880,3 +881,195 @@ theorem gr_offloop_inv (loop : Nat → Nat → List Nat → R (List Nat)) (G : N
         have e2 : off + j + (k + 1) = off + j + 1 + k := by omega
         rw [e1, e2, gx_take_set _ _ _ hi, List.drop_set_of_lt (by omega)]
         simp
+
+/-! ### `RNSTool::divide_and_round_q_last_ntt_inplace` (lazy arithmetic: the per-component step can trap) -/
+
+theorem gr_slice_all (l : List Nat) (n : Nat) (h : l.length = n) : GenR.slice l 0 n = .ok l := by
+  unfold GenR.slice; rw [if_pos ⟨Nat.zero_le _, by omega⟩, List.drop_zero, Nat.sub_zero, ← h, List.take_length]
+
+theorem gr_set_uint_eq (src tgt : List Nat) (n : Nat) (h1 : src.length = n) (h2 : tgt.length = n) : GenR.set_uint src n tgt = .ok src := by
+  unfold GenR.set_uint
+  simp only [gr_slice_all _ _ h1, gr_slice_all _ _ h2, bind, Except.bind]
+  have : GenR.ckLen tgt src = .ok () := by unfold GenR.ckLen; rw [if_pos (by omega)]
+  rw [this]
+  show Except.ok _ = _
+  unfold GenR.splice
+  rw [List.take_zero, Nat.zero_add, List.drop_eq_nil_of_le (by omega)]; simp
+
+/-- component `i`: `temp = (c_last mod q_i  or  c_last) + (q_i − half mod q_i)` (checked), lazy NTT, `c_i + (4 q_i − temp)` (checked), times the inverse -/
+def gr_darnComp (b qL : Modulus) (half : Nat) (inv : MulOperand) (NLi : List Nat → List Nat) (lastc ci : List Nat) : R (List Nat) :=
+  (if b.value < qL.value then lastc.map (fun x => x % b.value) else lastc).mapM (fun x => ckAdd x (b.value - half % b.value)) >>= fun temp1 =>
+  (List.range' 0 ci.length).mapM (fun j => ckSub (b.value * 4) ((NLi temp1).getD j 0) >>= fun z => ckAdd (ci.getD j 0) z) >>= fun d =>
+  .ok (d.map (fun x => mulOpV x inv b))
+
+theorem gr_darn_loop2 (n v9 : Nat) (temp : List Nat) (h : temp.length = n) :
+    GenR.divide_and_round_q_last_ntt_inplace_loop2 n v9 n 0 temp = temp.mapM (fun x => ckAdd x v9) := by
+  rw [← h]
+  refine gr_maploop (GenR.divide_and_round_q_last_ntt_inplace_loop2 temp.length v9) (fun x => ckAdd x v9) (fun _ _ => rfl) ?_ temp
+  intro k i l hi
+  rw [GenR.divide_and_round_q_last_ntt_inplace_loop2]
+  simp only [gw_idx_eq _ _ hi, bind, Except.bind]
+
+theorem gr_darn_loop3 (cs : List (List Nat)) (s n i v11 : Nat) (v6 : List Nat) (hi : i < s) (hsn : s * n < 2^64)
+    (hcs : cs.length = s) (hn : ∀ c ∈ cs, c.length = n) (hv : v6.length = n) :
+    GenR.divide_and_round_q_last_ntt_inplace_loop3 n v6 i v11 n 0 cs.flatten
+      = ((List.range' 0 n).mapM (fun j => ckSub v11 (v6.getD j 0) >>= fun z => ckAdd ((cs.getD i []).getD j 0) z) >>= fun d => .ok (cs.set i d).flatten) := by
+  have hfl := gr_flat_length n cs hn
+  rw [hcs] at hfl
+  have hin : i * n + n ≤ s * n := by
+    have := Nat.mul_le_mul_right n (Nat.succ_le_of_lt hi); rw [Nat.succ_mul] at this; exact this
+  rw [gr_offloop (GenR.divide_and_round_q_last_ntt_inplace_loop3 n v6 i v11) (fun j old => ckSub v11 (v6.getD j 0) >>= fun z => ckAdd old z) (i*n) n (fun _ _ => rfl) (by
+      intro k j l hj hjn
+      rw [GenR.divide_and_round_q_last_ntt_inplace_loop3]
+      have e1 : ckMul i n = .ok (i*n) := gr_ckMul_ok (by omega)
+      have e2 : ckAdd (i*n) j = .ok (i*n + j) := gr_ckAdd_ok (by omega)
+      have hvj : j < v6.length := by omega
+      simp only [e1, e2, gw_idx_eq _ _ hj, gw_idx_eq _ _ hvj, bind, Except.bind, gr_getD_of_lt _ _ hvj]
+      cases ckSub v11 v6[j] with
+      | error e => rfl
+      | ok z => rfl)
+    n 0 cs.flatten (by omega) (by omega)]
+  have hcg : (List.range' 0 n).mapM (fun j' => ckSub v11 (v6.getD j' 0) >>= fun z => ckAdd (cs.flatten.getD (i * n + j') 0) z)
+      = (List.range' 0 n).mapM (fun j => ckSub v11 (v6.getD j 0) >>= fun z => ckAdd ((cs.getD i []).getD j 0) z) := by
+    apply gr_mapM_congr
+    intro j hj
+    rw [List.mem_range'_1] at hj
+    rw [gr_flat_getD n cs i j hn (by omega) (by omega)]
+  rw [hcg]
+  cases hm : (List.range' 0 n).mapM (fun j => ckSub v11 (v6.getD j 0) >>= fun z => ckAdd ((cs.getD i []).getD j 0) z) with
+  | error e => rfl
+  | ok d =>
+    have hdl : d.length = n := by rw [gr_mapM_length _ _ _ hm, List.length_range']
+    rw [gr_ok_bind, gr_ok_bind, Nat.add_zero, ← gr_splice_flat n cs i d hn (by omega) hdl]
+    unfold GenR.splice
+    rw [hdl]
+
+theorem gr_darn_loop (qs : List Modulus) (invs : List MulOperand) (NL : Nat → List Nat → List Nat) (qL : Modulus) (half s n : Nat)
+    (hqs : qs.length = s) (hinv : s - 1 ≤ invs.length) (hq : ∀ i, i < s → (qs.getD i gr_dflt).WF) (hsn : s * n < 2^64) (hs64 : s < 2^64)
+    (hh : half < 2^64) (hNL : ∀ i x, i < s - 1 → x.length = n → (NL i x).length = n) :
+    ∀ k i (cs : List (List Nat)) (temp : List Nat), i + k = s - 1 → cs.length = s → (∀ c ∈ cs, c.length = n) → temp.length = n →
+      (∀ x ∈ cs.getD (s-1) [], x < 2^64) →
+      GenR.divide_and_round_q_last_ntt_inplace_loop1 s qL n ((s-1)*n) half qs (fun i x => .ok (NL i x)) invs k i cs.flatten temp
+        = (gr_foldM (fun i cs => gr_darnComp (qs.getD i gr_dflt) qL half (invs.getD i default) (NL i) (cs.getD (s-1) []) (cs.getD i [])) k i cs
+            >>= fun cs' => .ok cs'.flatten) := by
+  intro k
+  induction k with
+  | zero => intro i cs temp _ _ _ _ _; rfl
+  | succ k ih =>
+    intro i cs temp hik hcs hn ht hl
+    have hb := hq i (by omega)
+    have hb0 : 0 < (qs.getD i gr_dflt).value := by have := hb.two_le; omega
+    have hb61 := hb.lt
+    have hmul : ∀ a, a ≤ s → a * n < 2^64 := fun a ha => Nat.lt_of_le_of_lt (Nat.mul_le_mul_right n ha) hsn
+    have hcilen : (cs.getD i []).length = n := hn _ (gr_getD_mem cs i (by omega))
+    have hlastlen : (cs.getD (s-1) []).length = n := hn _ (gr_getD_mem cs (s-1) (by omega))
+    have e1 : GenR.idxMod qs i = .ok (qs.getD i gr_dflt) := gr_idxMod_ok qs i _ (by omega)
+    have e2 : ckAdd ((s-1)*n) n = .ok ((s-1)*n + n) := gr_ckAdd_ok (by have := hmul s (Nat.le_refl _); rw [← Nat.succ_mul]; rwa [show (s-1).succ = s by omega])
+    have e3 : GenR.slice cs.flatten ((s-1)*n) ((s-1)*n + n) = .ok (cs.getD (s-1) []) := gr_slice_flat n cs (s-1) hn (by omega)
+    have e4 : GenR.modulo (cs.getD (s-1) []) (qs.getD i gr_dflt) temp = .ok ((cs.getD (s-1) []).map (fun x => x % (qs.getD i gr_dflt).value)) := by
+      rw [gr_modulo_eq _ _ _ (by rw [ht, hlastlen])]
+      exact gr_mapM_ok _ _ _ (fun x hx => barrett64_exact hb (hl x hx))
+    have e4' : GenR.set_uint (cs.getD (s-1) []) n temp = .ok (cs.getD (s-1) []) := gr_set_uint_eq _ _ _ hlastlen ht
+    obtain ⟨temp0, ht0⟩ : ∃ temp0, temp0 = (if (qs.getD i gr_dflt).value < qL.value then (cs.getD (s-1) []).map (fun x => x % (qs.getD i gr_dflt).value) else cs.getD (s-1) []) := ⟨_, rfl⟩
+    have ht0len : temp0.length = n := by
+      rw [ht0]; split
+      · rw [List.length_map]; exact hlastlen
+      · exact hlastlen
+    have e5 : GenW.barrett_reduce_u64 half (qs.getD i gr_dflt) = .ok (half % (qs.getD i gr_dflt).value) := by
+      rw [gw_barrett_reduce_u64_eq]; exact barrett64_exact hb hh
+    have e6 : ckSub (qs.getD i gr_dflt).value (half % (qs.getD i gr_dflt).value) = .ok ((qs.getD i gr_dflt).value - half % (qs.getD i gr_dflt).value) :=
+      gr_ckSub_ok (Nat.mod_lt _ hb0).le
+    have e7 := gr_darn_loop2 n ((qs.getD i gr_dflt).value - half % (qs.getD i gr_dflt).value) temp0 ht0len
+    have e8 : ((qs.getD i gr_dflt).value <<< 2) % B64 = (qs.getD i gr_dflt).value * 4 := by
+      rw [Nat.shiftLeft_eq, B64_eq, Nat.mod_eq_of_lt (by omega)]
+    rw [GenR.divide_and_round_q_last_ntt_inplace_loop1, gr_foldM]
+    simp only [e1, e2, e3, e4, e4', e5, e6, gr_ok_bind]
+    have eif : (if (qs.getD i gr_dflt).value < qL.value then (Except.ok ((cs.getD (s-1) []).map (fun x => x % (qs.getD i gr_dflt).value)) : R (List Nat))
+        else Except.ok (cs.getD (s-1) [])) = .ok temp0 := by rw [ht0]; split <;> rfl
+    rw [eif]
+    simp only [gr_ok_bind, e7, e8]
+    unfold gr_darnComp
+    rw [← ht0]
+    cases hm1 : temp0.mapM (fun x => ckAdd x ((qs.getD i gr_dflt).value - half % (qs.getD i gr_dflt).value)) with
+    | error e => rfl
+    | ok temp1 =>
+      have ht1len : temp1.length = n := by rw [gr_mapM_length _ _ _ hm1, ht0len]
+      have ht2len := hNL i temp1 (by omega) ht1len
+      simp only [gr_ok_bind]
+      rw [gr_darn_loop3 cs s n i _ (NL i temp1) (by omega) hsn hcs hn ht2len, hcilen]
+      cases hm2 : (List.range' 0 n).mapM (fun j => ckSub ((qs.getD i gr_dflt).value * 4) ((NL i temp1).getD j 0) >>= fun z => ckAdd ((cs.getD i []).getD j 0) z) with
+      | error e => rfl
+      | ok d =>
+        have hdlen : d.length = n := by rw [gr_mapM_length _ _ _ hm2, List.length_range']
+        have hn' := gr_set_length_mem n cs i d hn hdlen
+        have e9 : ckMul i n = .ok (i * n) := gr_ckMul_ok (hmul i (by omega))
+        have e10 : ckAdd i 1 = .ok (i + 1) := gr_ckAdd_ok (by omega)
+        have e11 : ckMul (i+1) n = .ok (i * n + n) := by rw [gr_ckMul_ok (hmul (i+1) (by omega)), Nat.succ_mul]
+        have e13 : GenR.slice (cs.set i d).flatten (i*n) (i*n + n) = .ok d := by
+          rw [gr_slice_flat n (cs.set i d) i hn' (by rw [List.length_set]; omega), gr_getD_set_self _ _ _ _ (by omega)]
+        have e14 : GenR.idxOp invs i = .ok (invs.getD i default) := gr_idxOp_ok invs i _ (by omega)
+        have e15 : GenR.multiply_operand_inplace d (invs.getD i default) (qs.getD i gr_dflt) = .ok (d.map (fun x => mulOpV x (invs.getD i default) (qs.getD i gr_dflt))) := by
+          rw [gr_multiply_operand_inplace_eq]; exact gr_mapM_ok _ _ _ (fun x _ => gr_mulOperandMod _ _ _)
+        have e16 : GenR.splice (cs.set i d).flatten (i*n) (d.map (fun x => mulOpV x (invs.getD i default) (qs.getD i gr_dflt)))
+            = (cs.set i (d.map (fun x => mulOpV x (invs.getD i default) (qs.getD i gr_dflt)))).flatten := by
+          rw [gr_splice_flat n (cs.set i d) i _ hn' (by rw [List.length_set]; omega) (by rw [List.length_map]; exact hdlen), List.set_set]
+        simp only [gr_ok_bind, e9, e10, e11, e13, e14, e15, e16]
+        refine ih (i+1) _ _ (by omega) (by rw [List.length_set]; exact hcs) (gr_set_length_mem n cs i _ hn (by rw [List.length_map]; exact hdlen)) ht2len ?_
+        rw [gr_getD_set_ne _ _ _ _ _ (by omega)]
+        exact hl
+
+theorem gr_drop_set_last {α : Type} (cs : List α) (s : Nat) (x : α) (hcs : cs.length = s) (hs : 1 ≤ s) : (cs.set (s-1) x).drop (s-1) = [x] := by
+  rw [List.drop_eq_getElem_cons (by rw [List.length_set]; omega), List.getElem_set_self, List.drop_eq_nil_of_le (by rw [List.length_set]; omega)]
+
+/-- the generated routine on a flat buffer (`IT` = what the abstract inverse NTT returns, `NL` = the abstract lazy forward NTT) -/
+theorem gr_darn_list (qs : List Modulus) (invs : List MulOperand) (s n : Nat) (IT NL : Nat → List Nat → List Nat) (cs : List (List Nat))
+    (hs : 1 ≤ s) (hqs : qs.length = s) (hinv : s - 1 ≤ invs.length) (hq : ∀ i, i < s → (qs.getD i gr_dflt).WF) (hsn : s * n < 2^64) (hs64 : s < 2^64)
+    (hcs : cs.length = s) (hn : ∀ c ∈ cs, c.length = n)
+    (hIT : (IT (s-1) (cs.getD (s-1) [])).length = n) (hNL : ∀ i x, i < s - 1 → x.length = n → (NL i x).length = n) :
+    GenR.divide_and_round_q_last_ntt_inplace cs.flatten s qs n invs (fun i x => .ok (IT i x)) (fun i x => .ok (NL i x)) =
+      ((IT (s-1) (cs.getD (s-1) [])).mapM (fun x => addMod x ((qs.getD (s-1) gr_dflt).value / 2) (qs.getD (s-1) gr_dflt)) >>= fun lastc =>
+       (List.range' 0 (s-1)).mapM (fun i => gr_darnComp (qs.getD i gr_dflt) (qs.getD (s-1) gr_dflt) ((qs.getD (s-1) gr_dflt).value / 2)
+          (invs.getD i default) (NL i) lastc (cs.getD i [])) >>= fun outs => .ok (outs ++ [lastc]).flatten) := by
+  have hmul : ∀ a, a ≤ s → a * n < 2^64 := fun a ha => Nat.lt_of_le_of_lt (Nat.mul_le_mul_right n ha) hsn
+  have hL := hq (s-1) (by omega)
+  obtain ⟨lastI, hli⟩ : ∃ lastI, lastI = IT (s-1) (cs.getD (s-1) []) := ⟨_, rfl⟩
+  rw [← hli] at hIT ⊢
+  have e1 : ckSub s 1 = .ok (s-1) := gr_ckSub_ok hs
+  have e2 : GenR.idxMod qs (s-1) = .ok (qs.getD (s-1) gr_dflt) := gr_idxMod_ok qs _ _ (by omega)
+  have e3 : ckMul (s-1) n = .ok ((s-1)*n) := gr_ckMul_ok (hmul _ (by omega))
+  have e4 : ckAdd ((s-1)*n) n = .ok ((s-1)*n + n) := gr_ckAdd_ok (by have := hmul s (Nat.le_refl _); rw [← Nat.succ_mul]; rwa [show (s-1).succ = s by omega])
+  have e5 : GenR.slice cs.flatten ((s-1)*n) ((s-1)*n + n) = .ok (cs.getD (s-1) []) := gr_slice_flat n cs (s-1) hn (by omega)
+  have e6 : GenR.splice cs.flatten ((s-1)*n) lastI = (cs.set (s-1) lastI).flatten := gr_splice_flat n cs (s-1) lastI hn (by omega) hIT
+  have hn' := gr_set_length_mem n cs (s-1) lastI hn hIT
+  have e7 : GenR.slice (cs.set (s-1) lastI).flatten ((s-1)*n) ((s-1)*n + n) = .ok lastI := by
+    rw [gr_slice_flat n _ (s-1) hn' (by rw [List.length_set]; omega), gr_getD_set_self _ _ _ _ (by omega)]
+  have hhalf : (qs.getD (s-1) gr_dflt).value >>> 1 = (qs.getD (s-1) gr_dflt).value / 2 := by rw [Nat.shiftRight_eq_div_pow]
+  unfold GenR.divide_and_round_q_last_ntt_inplace
+  simp only [e1, e2, e3, e4, e5, ← hli, e6, e7, gr_ok_bind, hhalf, gr_add_scalar_inplace_eq]
+  cases hm : lastI.mapM (fun x => addMod x ((qs.getD (s-1) gr_dflt).value / 2) (qs.getD (s-1) gr_dflt)) with
+  | error e => rfl
+  | ok lastc =>
+    have hll : lastc.length = n := by rw [gr_mapM_length _ _ _ hm, hIT]
+    have hlt : ∀ x ∈ lastc, x < 2^64 := gr_mapM_forall _ (fun z => z < 2^64) (fun x y h => gr_addMod_lt _ _ _ _ h) _ _ hm
+    have hcs1 : (cs.set (s-1) lastI).length = s := by rw [List.length_set]; exact hcs
+    have hlastget : ((cs.set (s-1) lastI).set (s-1) lastc).getD (s-1) [] = lastc := gr_getD_set_self _ _ _ _ (by omega)
+    simp only [gr_ok_bind]
+    rw [gr_splice_flat n _ (s-1) lastc hn' (by omega) hll,
+      gr_darn_loop qs invs NL _ _ s n hqs hinv hq hsn hs64 (by have := hL.lt; omega) hNL (s-1) 0 _ (List.replicate n 0) (by omega)
+        (by rw [List.length_set]; exact hcs1) (gr_set_length_mem n _ _ _ hn' hll) List.length_replicate (by rw [hlastget]; exact hlt),
+      gr_foldM_eq _ (s-1) (by intro i a b h1 h2; simp only [h1, h2]) (s-1) 0 _ (by omega) (by rw [List.length_set]; omega)]
+    have hcg : (List.range' 0 (s-1)).mapM (fun i' => gr_darnComp (qs.getD i' gr_dflt) (qs.getD (s-1) gr_dflt) ((qs.getD (s-1) gr_dflt).value / 2) (invs.getD i' default) (NL i')
+          (((cs.set (s-1) lastI).set (s-1) lastc).getD (s-1) []) (((cs.set (s-1) lastI).set (s-1) lastc).getD i' []))
+        = (List.range' 0 (s-1)).mapM (fun i => gr_darnComp (qs.getD i gr_dflt) (qs.getD (s-1) gr_dflt) ((qs.getD (s-1) gr_dflt).value / 2)
+          (invs.getD i default) (NL i) lastc (cs.getD i [])) := by
+      apply gr_mapM_congr
+      intro i' hi'
+      rw [List.mem_range'_1] at hi'
+      rw [hlastget, gr_getD_set_ne _ _ _ _ _ (by omega), gr_getD_set_ne _ _ _ _ _ (by omega)]
+    rw [hcg]
+    cases (List.range' 0 (s-1)).mapM (fun i => gr_darnComp (qs.getD i gr_dflt) (qs.getD (s-1) gr_dflt) ((qs.getD (s-1) gr_dflt).value / 2)
+          (invs.getD i default) (NL i) lastc (cs.getD i [])) with
+    | error e => rfl
+    | ok outs =>
+      simp only [gr_ok_bind]
+      rw [List.take_zero, List.nil_append, Nat.zero_add, gr_drop_set_last _ s lastc hcs1 hs]
